@@ -125,7 +125,7 @@ class PjRpcMocker:
         """
 
         match = Match(endpoint, version, method_name, once, id=id, result=result, error=error, callback=callback)
-        self._matches[endpoint][(version, method_name)][idx] = match
+        self._matches.get(endpoint, {}).get((version, method_name), [])[idx] = match
 
     def remove(
         self,
@@ -147,7 +147,7 @@ class PjRpcMocker:
         if method_name is None:
             result = self._matches.pop(endpoint)
         else:
-            result = self._matches[endpoint].pop((version, method_name))
+            result = self._matches.get(endpoint, {}).pop((version, method_name))
 
         self._cleanup_matches(endpoint, version, method_name)
 
